@@ -86,9 +86,10 @@ func Build[G any](options ...Option) (parser *Parser[G], err error) {
 	}
 	if len(p.mappers) > 0 {
 		mappers := map[lexer.TokenType][]Mapper{}
+		var untyped []Mapper // Mappers for every token: not to be confused with mappers for the EOF token.
 		for _, mapper := range p.mappers {
 			if len(mapper.symbols) == 0 {
-				mappers[lexer.EOF] = append(mappers[lexer.EOF], mapper.mapper)
+				untyped = append(untyped, mapper.mapper)
 			} else {
 				for _, symbol := range mapper.symbols {
 					if rn, ok := symbols[symbol]; !ok {
@@ -100,8 +101,8 @@ func Build[G any](options ...Option) (parser *Parser[G], err error) {
 			}
 		}
 		p.lex = &mappingLexerDef{p.lex, func(t lexer.Token) (lexer.Token, error) {
-			combined := make([]Mapper, 0, len(mappers[t.Type])+len(mappers[lexer.EOF]))
-			combined = append(combined, mappers[lexer.EOF]...)
+			combined := make([]Mapper, 0, len(mappers[t.Type])+len(untyped))
+			combined = append(combined, untyped...)
 			combined = append(combined, mappers[t.Type]...)
 
 			var err error
